@@ -4,17 +4,21 @@ from vcommon import *
 import vrt_runner, mu_common
 
 PID = "C01"
-PROP_V = ["Props/Properties_C01.v", "Props/Properties_C01w.v"]
+PROP_V = ["Props/Properties_C01.v", "Props/Properties_C01w.v", "Props/Properties_C01p.v"]
 GEN_MODULES = ["Consts", "Sites"]
 FLOW_FILES = ['mu.c', 'mu_wait.c']
 REPLAY_HINT = "VRT_SEED=<seed> [env] _work/h/<scenario>  (deterministic: same seed, same schedule); add VRT_TRACE=<file> for the step trace"
 PARTIAL = ["quantifier 'counting and binary semaphores': the models use an abstract COUNTING semaphore (a sound over-approximation of the binary one for exclusion: fewer posts are never needed for safety); the binary flavour is exercised by the scenario runs only",
-           "no theorem states that the model's panic pcs (Crash k for the ASSERTs of mu.c) are unreachable for contract-respecting programs; a crashed thread is a violation for the oracles (CRASH) and never occurs in the replayed traces",
+           "Properties_C01p: Crash 2 (unlock/runlock sanity check) and Crash 3 (MU_CONDITION seen by unlock_slow) are unreachable for ANY programs "
+           "(C01_no_internal_panic); contract-respecting programs never panic (C01_no_panic); a Crash 1/4 pc is entered only by the step that begins an unlock of a "
+           "non-holder / an acquisition by a holder (C01_panic_only_by_client_error).  well_bracketed is defined on straight-line op lists, so OTry may only be the "
+           "last op; nsync_mu_assert_held / rassert_held / is_reader panics are outside MuModel; the 'checking a waiter condition' panic is MuWaitModel's (C06_no_scan_panic)",
            "C01_exclusion (MuModel) and C01w_exclusion (MuWaitModel: + nsync_mu_wait_with_deadline incl. the timeout re-acquisition with its "
            "frozen-word window, unlock_slow's conversion to a writer, unlock_without_wakeup) are theorems; the re-acquisitions inside "
            "nsync_cv_wait* (transfer to the mutex queue) and nsync_wait_n are covered by the occupancy oracle over sampled schedules and by "
            "the cv / wait_n models' own theorems (Properties_C05cv, C11_mutex), not by one exclusion theorem over a combined model"]
-TRUSTED_BASE = ["Model/MuModel.v control skeleton: hand-written, validated by lock-step replay of implementation traces "
+TRUSTED_BASE = ["the Crash codes are ghost-routed: an unlock by a non-holder is stopped in begin_op (Crash 1) before nsync_mu_unlock's own check could see it -- that the real check catches the same client error is shown only by scenario runs",
+                "Model/MuModel.v control skeleton: hand-written, validated by lock-step replay of implementation traces "
                 "(replay/mu_replay.ml over the extracted model; extraction uses ExtrOcamlBasic only)",
                 "harness/rt/vrt.c deterministic runtime: modelled futex, virtual clock, allocator"]
 
